@@ -61,10 +61,14 @@ type tickOp struct {
 	sub    string
 	de     int    // epoch delta for newEpoch
 	mul    int    // or: jump to epoch*mul (mul itself from epoch 0)
+	plus32 bool   // or: jump to epoch + 2^32
 	signer string // "A" alphabet, "AN" alphabet+node, "N" node only, "S" stranger, "AO" alphabet + the other node
 }
 
 func (o tickOp) target(epoch int) int {
+	if o.plus32 {
+		return epoch + 1<<32
+	}
 	if o.mul > 0 {
 		return max(epoch, 1) * o.mul
 	}
@@ -121,6 +125,8 @@ func NewTickDriver(mode string) *TickDriver {
 		}
 		// a jump to 256 times the epoch: the numbers whose byte encodings are shifts of one another
 		add(tickOp{kind: "newEpoch", mul: 256, signer: "A"})
+		// and past the four bytes the per-epoch lists are keyed with
+		add(tickOp{kind: "newEpoch", plus32: true, signer: "A"})
 		add(tickOp{kind: "newEpoch", de: 1, signer: "S"}, tickOp{kind: "newEpoch", de: 1, signer: "N"}, tickOp{kind: "nextBlock"})
 	case "C06bare":
 		// a 3-key committee (majority account != Alphabet account) and no system subscriber, so
@@ -223,6 +229,9 @@ func (d *TickDriver) Step(x *Exec, n *Node, i int) StepResult {
 	o := d.ops[i]
 	h := w.Contracts["netmap"].Hash
 	where := map[string]any{"op": o.kind, "signer": o.signer}
+	if o.kind == "newEpoch" && o.target(m.epoch) >= 1<<32 {
+		where["epoch_beyond_32_bits"] = true
+	}
 	viol := func(class, msg string) StepResult {
 		return StepResult{V: Viol(class, msg, where), Outcome: "violation"}
 	}
